@@ -91,7 +91,7 @@ Walk(role, stored, act, a, evs, bad) ==
     ELSE LET r == OnEvent(role, stored, act, a, Head(evs), bad)
          IN  Walk(role, stored, act, r.acc, Tail(evs), r.bad)
 
-(* act: [a, m, id]; ob: [st, tRun, wsOpen, ev, panicked, hung]                                *)
+(* act: [a, m, id]; ob: [st, tRun, wsOpen, buf, ev, panicked, hung]                                *)
 (* returns [acc, bad] after one environment action                                              *)
 JudgeStep(role, stored, act, acc, ob) ==
     LET a0 == [acc EXCEPT !.trust = @ \/ act.a = "Approve",
@@ -107,7 +107,10 @@ JudgeStep(role, stored, act, acc, ob) ==
         b6 == IF act.a = "Sleep" /\ ~ob.wsOpen /\ a1.nClosed = 0 /\ ~a1.dead
               THEN b5 \cup {<<"C11", "end-not-reported", a1.last, act.a>>} ELSE b5
         b7 == IF act.a = "Sleep" /\ a1.term /\ ob.wsOpen THEN b6 \cup {<<"C04", "transport-not-closed", a1.last>>} ELSE b6
-    IN  [acc |-> a1, bad |-> b7]
+        \* a datagram that arrived before completion is held back (ob.buf = length of the pre-completion buffer)
+        b8 == IF ~a1.dead /\ ~a1.compl /\ ob.buf # Len(a1.inj) - Len(a1.del)
+              THEN b7 \cup {<<"C06", "datagram-not-held-back", a1.last, act.a>>} ELSE b7
+    IN  [acc |-> a1, bad |-> b8]
 
 (*************************** C03: two endpoints, judged at quiescence *******************)
 (* c, s: [st, wsOpen, nSetup, idOk]; q.trustGiven: the server side trusted the client beforehand, through auto-accept,   *)
